@@ -96,6 +96,40 @@ Proof. simpl. split; [injection 1; auto|now intros [-> ->]]. Qed.
 Lemma src_sid_raw_ctx a s b : src_sid (DRaw a) <> src_sid (DCtx s b).
 Proof. simpl. discriminate. Qed.
 
+(* Context-derived ids, with the hash as an arbitrary function: service ids have a
+   fixed length (16 bytes), so (service id, data) -> pre-image is injective -- every
+   byte of the data and the whole service id enter the hash -- and two derivations
+   give the same id only for the same (service, data) or by a collision of the
+   (truncated) hash on two DIFFERENT pre-images.  This is what the injective
+   constructor [SHash] of the model abbreviates. *)
+Lemma ctx_preimage_injective s1 d1 s2 d2 :
+  length s1 = length s2 -> ctx_preimage s1 d1 = ctx_preimage s2 d2 -> s1 = s2 /\ d1 = d2.
+Proof.
+  unfold ctx_preimage. revert s2. induction s1 as [|x s1 IH]; intros [|y s2] L E; simpl in *; try discriminate.
+  - auto.
+  - injection E as -> E. injection L as L. destruct (IH s2 L E) as [-> ->]. auto.
+Qed.
+
+Lemma ctx_id_eq_or_collision (H : list nat -> list nat) s1 d1 s2 d2 :
+  length s1 = length s2 ->
+  ctx_id H s1 d1 = ctx_id H s2 d2 ->
+  (s1 = s2 /\ d1 = d2) \/
+  (ctx_preimage s1 d1 <> ctx_preimage s2 d2 /\
+   pad 32 (H (ctx_preimage s1 d1)) = pad 32 (H (ctx_preimage s2 d2))).
+Proof.
+  intros L E. destruct (list_eq_dec Nat.eq_dec (ctx_preimage s1 d1) (ctx_preimage s2 d2)) as [P|P].
+  - left. now apply ctx_preimage_injective.
+  - right. split; [assumption|exact E].
+Qed.
+
+(* e.g. two services with the same 32-byte data, and data sharing a 32-byte prefix,
+   have different pre-images (so different ids unless the hash collides) *)
+Example ctx_preimages_differ :
+  let a := repeat 1 16 in let b := repeat 2 16 in
+  ctx_preimage a (seq 1 32) <> ctx_preimage b (seq 1 32) /\
+  ctx_preimage a (seq 1 32) <> ctx_preimage a (seq 1 33).
+Proof. split; vm_compute; discriminate. Qed.
+
 (* the derivation of raw ids is NOT injective: zero padding and truncation *)
 Lemma raw_sid_collisions :
   src_sid (DRaw []) = src_sid (DRaw [0]) /\
